@@ -13,6 +13,7 @@ Inductive expect := XList (l : list Z) | XVal (z : Z) | XErr (e : exn) | XReject
 
 Record case := {
   c_full : list Z;                              (* all rows, in the requested order *)
+  c_init : option Z;                            (* Cls.select(limit=k): the constructor argument, None = not given *)
   c_chain : list (option Z * option Z);
   c_fin : fin;
   c_win : option (Z * option Z);                (* ops (start,end) after the chain; None = a Python list *)
@@ -55,20 +56,24 @@ Definition of_val (o : outcome Z) : expect :=
 
 Definition model_out (d : dialect) (c : case) : expect :=
   match c_fin c with
-  | FList => of_list (impl_list d (c_full c) (c_chain c))
-  | FIndex i => of_val (impl_index d (c_full c) (c_chain c) i)
-  | FLimit n => of_list (impl_limit d (c_full c) (c_chain c) n)
+  | FList => of_list (impl_list_from d (c_full c) (c_init c) (c_chain c))
+  | FIndex i => of_val (impl_index_from d (c_full c) (c_init c) (c_chain c) i)
+  | FLimit n => of_list (impl_limit_from d (c_full c) (c_init c) (c_chain c) n)
   end.
+
+(* select(limit=k) is the select of the first k rows *)
+Definition base (c : case) : list Z :=
+  match c_init c with None => c_full c | Some k => pyslice None (Some k) (c_full c) end.
 
 Definition spec_out (c : case) : expect :=
   match c_fin c with
-  | FList => XList (spec_list (c_full c) (c_chain c))
-  | FIndex i => of_val (spec_index (c_full c) (c_chain c) i)
-  | FLimit n => XList (spec_list (c_full c) (c_chain c ++ [(None, Some n)]))
+  | FList => XList (spec_list (base c) (c_chain c))
+  | FIndex i => of_val (spec_index (base c) (c_chain c) i)
+  | FLimit n => XList (spec_list (base c) (c_chain c ++ [(None, Some n)]))
   end.
 
 Definition model_win (c : case) : option (option (Z * option Z)) :=
-  match run_chain Sqlite (c_full c) (SWin (VInt 0) VNone) (c_chain c) with
+  match obind (ctor_start (c_init c)) (fun x0 => run_chain Sqlite (c_full c) x0 (c_chain c)) with
   | Good (SWin (VInt s) VNone) => Some (Some (s, None))
   | Good (SWin (VInt s) (VInt e)) => Some (Some (s, Some e))
   | Good (SList _) => Some None
